@@ -1430,10 +1430,14 @@ class AttrParser(BaseParser):
                         caller = self._parse_location()
                         return CallSiteLoc(callee, caller)
                 case "fused":
+                    metadata: Attribute = NoneAttr()
+                    if self.parse_optional_punctuation("<") is not None:
+                        metadata = self.parse_attribute()
+                        self.parse_punctuation(">")
                     locs = self.parse_comma_separated_list(
                         self.Delimiter.SQUARE, lambda: self._parse_location()
                     )
-                    return FusedLoc(tuple(locs), NoneAttr())
+                    return FusedLoc(tuple(locs), metadata)
                 case _:
                     self.raise_error("Unsupported location type.")
 
